@@ -21,7 +21,7 @@ import (
 // events is executed on one cluster; a model says which attempts must succeed.
 
 type c12Op struct {
-	Kind  int // 0 keygen complete, 1 keygen one missing, 2 sign complete, 3 sign one missing, 4 sign cancelled midway, 5 two signs on different topics concurrently, 6 second sign on the same topic while the first runs, 7 replay recorded frames, 8 foreign frames (configured outsider / unknown node)
+	Kind  int // 9 sign cancelled while the signer of one node is still being prepared, 10 keygen with two extra KeyGen calls on one node while it runs; 0 keygen complete, 1 keygen one missing, 2 sign complete, 3 sign one missing, 4 sign cancelled midway, 5 two signs on different topics concurrently, 6 second sign on the same topic while the first runs, 7 replay recorded frames, 8 foreign frames (configured outsider / unknown node)
 	Topic int
 	Who   int // missing party / cancelling party / duplicate caller (index)
 	At    int // deliveries before the cancellation / before the duplicate call
@@ -44,7 +44,7 @@ func genC12(t *rapid.T) c12Case {
 	n := rapid.IntRange(2, 8).Draw(t, "nops")
 	for i := 0; i < n; i++ {
 		c.Ops = append(c.Ops, c12Op{
-			Kind:  rapid.SampledFrom([]int{0, 1, 2, 2, 2, 3, 3, 4, 4, 5, 6, 7, 8}).Draw(t, "kind"),
+			Kind:  rapid.SampledFrom([]int{0, 1, 2, 2, 2, 3, 3, 4, 4, 5, 6, 7, 8, 9, 9, 10}).Draw(t, "kind"),
 			Topic: rapid.IntRange(0, 1).Draw(t, "topic"),
 			Who:   rapid.IntRange(0, 3).Draw(t, "who"),
 			At:    rapid.IntRange(0, 40).Draw(t, "at"),
@@ -86,9 +86,16 @@ func runC12(c c12Case) *vh.Outcome {
 	br := sim.Bubble(theT, func() {
 		net := sim.NewNet()
 		instance := map[uint16]int{}
+		var gateNode uint16 // node whose next signer instance parks in its first SetShareData
+		var gate chan struct{}
 		mk := func(node uint16, kind string) *backends.Rec {
 			instance[node]++
-			return &backends.Rec{Node: node, Tape: tape, Script: backends.DefaultScript(), Session: fmt.Sprintf("%s#%d@%d", kind, instance[node], node)}
+			r := &backends.Rec{Node: node, Tape: tape, Script: backends.DefaultScript(), Session: fmt.Sprintf("%s#%d@%d", kind, instance[node], node)}
+			if kind == "sign" && gate != nil && node == gateNode {
+				r.Gate = gate
+				gateNode = 0
+			}
+			return r
 		}
 		cl := stack.New(net, stack.Config{Membership: membership, Silent: c.Silent, Threshold: n - 1,
 			KGF: func(node uint16) tss.KeyGenFactory {
@@ -364,6 +371,103 @@ func runC12(c c12Case) *vh.Outcome {
 					return
 				}
 				usedTopics[topic] = "ok"
+			case 9: // sign cancelled while the signer of one node is still being prepared (after the first barrier)
+				_, used := usedTopics[topic]
+				saf := false
+				if c.Silent && used && avoidL20 {
+					saf = true
+					info.StartAllFirst++
+				}
+				victim := parts[op.Who%n]
+				gate = make(chan struct{})
+				gateNode = victim
+				ctxs, cns := ctxFor(parts)
+				calls := mkCalls("sign", topic, parts, ctxs)
+				stage := 0
+				hook := func(d *sim.Driver) {
+					switch stage {
+					case 0:
+						for _, e := range tape.Snapshot() {
+							if e.Kind == "setshare-parked" && e.Node == victim {
+								stage = 1
+								cns[victim]() // Sign of the victim returns while its signer is still being prepared
+							}
+						}
+					case 1:
+						for i, id := range parts {
+							if id == victim && calls[i].IsDone() {
+								stage = 2
+								close(gate) // the preparation carries on in the background
+							}
+						}
+					}
+				}
+				info.Attempts = append(info.Attempts, "sign cancelled during signer preparation on "+topic)
+				info.Overlaps++
+				if !runAttempt(calls, saf, hook) {
+					return
+				}
+				if stage < 2 {
+					select {
+					case <-gate:
+					default:
+						close(gate)
+					}
+				}
+				gate = nil
+				for _, cn := range cns {
+					cn()
+				}
+				if !drain() {
+					return
+				}
+				usedTopics[topic] = "failed"
+			case 10: // key generation with two extra KeyGen calls on one node while it is running
+				key := "DKG"
+				_, used := usedTopics[key]
+				saf := false
+				if c.Silent && used && avoidL20 {
+					saf = true
+					info.StartAllFirst++
+				}
+				ctxs, cns := ctxFor(parts)
+				calls := mkCalls("keygen", "DKG", parts, ctxs)
+				dupNode := parts[op.Who%n]
+				var dups []*sim.Call
+				hook := func(d *sim.Driver) {
+					if len(d.Delivered) < op.At%12 {
+						return
+					}
+					for i, id := range parts {
+						if id != dupNode || !calls[i].Started || calls[i].IsDone() {
+							continue
+						}
+						if len(dups) == 0 || (len(dups) == 1 && dups[0].IsDone()) {
+							dc := cl.KeyGenCall(ctxs[id], id, n, 2)
+							dc.Name = fmt.Sprintf("duplicate-keygen-%d@%d", len(dups)+1, id)
+							dups = append(dups, dc)
+							d.StartCall(dc)
+						}
+					}
+				}
+				info.Attempts = append(info.Attempts, "keygen with concurrent duplicates")
+				info.Overlaps++
+				if !runAttempt(calls, saf, hook) {
+					return
+				}
+				for _, cn := range cns {
+					cn()
+				}
+				for _, dc := range dups {
+					if !dc.IsDone() || dc.Panic != "" || dc.Err == nil {
+						fail = vh.Failf("C12/duplicate-not-refused/keygen", "%s while a key generation was running on that node was not refused with an error (done=%v err=%v panic=%q)", dc.Name, dc.IsDone(), dc.Err, dc.Panic)
+						return
+					}
+				}
+				if !expectAllOK("keygen-with-duplicates", calls, key, used) {
+					return
+				}
+				usedTopics[key] = "ok"
 			case 7: // replay recorded frames of earlier sessions (late / duplicated traffic)
 				if len(recorded) == 0 {
 					continue
